@@ -2,6 +2,7 @@
 from harness import gen_loc
 from harness.impl_loc import enc_loc
 
+WARM_TWINS = {"quick": 0.02, "thorough": 0.05}      # engine: call-history twins (harness/warm.py)
 ID = "C04"
 LEAN_MODULE = "BioCantor.Props.C04"
 DESIGN_REF = "4/C04"
